@@ -248,7 +248,9 @@ def _plsr_case(draw, ykind, tier, metamorphic=False):
          "ykind": draw(st.sampled_from(["random", "model"])),
          "xkind": "normal" if metamorphic else draw(st.sampled_from(["normal", "normal", "int"])),
          "iters": draw(st.sampled_from([None, None, 2, 5])),
-         "n_new": draw(st.integers(1, 5)), "lays": draw(LAYS)}
+         "n_new": draw(st.integers(1, 5)), "lays": draw(LAYS),
+         # data expressed in small / large units (X and Y both): every clause is relative to the data scale
+         "scale": draw(st.sampled_from([1.0, 1.0, 1.0, 1e-6, 1e3]))}
     # a constant FIRST Y column while another column carries the signal (class of the fixed defect 441251a)
     c["const0"] = bool(c["p"] is not None and c["p"] >= 2 and not metamorphic and draw(st.integers(0, 4)) == 0)
     if metamorphic:
@@ -273,7 +275,8 @@ def _plsr_data(case):
     if p is None:
         Y = Y[:, 0]
     Xnew = _xdata(case["seed"] + 5, (case["n_new"],) + sides, "normal", case.get("dead"))
-    return X, Y, Xnew
+    sc = float(case.get("scale", 1.0))
+    return X * sc, Y * sc, Xnew * sc
 
 
 def _support(X):
@@ -283,13 +286,70 @@ def _support(X):
     return int(min(X.shape[0] - 1, np.linalg.matrix_rank(Xc)))
 
 
+def _probe(fn, timeout=20.0):
+    """Run fn() in a forked child and report how it ends: 'ok', 'LinAlgError', 'error' or 'hang'.
+    A fit that hands NaN to LAPACK's lstsq may never return and cannot be interrupted by a signal handler (the
+    engine's per-case alarm is only served between bytecodes); a forked child can be killed."""
+    import os
+    import select
+    import signal
+    r, w = os.pipe()
+    pid = os.fork()
+    if pid == 0:
+        code = b"e"
+        try:
+            os.close(r)
+            signal.alarm(0)
+            try:
+                fn()
+                code = b"o"
+            except np.linalg.LinAlgError:
+                code = b"l"
+            except BaseException:
+                code = b"e"
+            os.write(w, code)
+        finally:
+            os._exit(0)
+    os.close(w)
+    data = b"h"
+    try:
+        ready, _, _ = select.select([r], [], [], timeout)
+        if ready:
+            data = os.read(r, 1) or b"e"
+    finally:
+        if data == b"h":
+            try:
+                os.kill(pid, signal.SIGKILL)
+            except OSError:
+                pass
+        os.close(r)
+        os.waitpid(pid, 0)
+    return {b"o": "ok", b"l": "LinAlgError", b"e": "error", b"h": "hang"}[data]
+
+
+def _risky(case, X):
+    """data classes in which a loading can be exactly 0/0 (NaN scores handed to lstsq): exact data (integers, dead
+    slices) or more components than varying features / samples allow"""
+    return bool(case.get("xkind") == "int" or case.get("dead") or case.get("exact")
+                or case["ncomp"] > min(X.shape[0] - 1, _peff(list(X.shape[1:]), case.get("dead"))))
+
+
+def _guard(case, X, Y, kw):
+    """counted, explicit rules applied BEFORE the real fit is executed in this process"""
+    if (case.get("xkind") == "int" or case.get("dead") or case.get("exact")) and case["ncomp"] > _support(X):
+        # integer data / data with dead slices are exhausted *exactly*: the next loading is 0/0 and the library hands NaN
+        # scores to LAPACK's lstsq, which raises LinAlgError or does not return at all (uninterruptible) -> not executed
+        discard("components not supported by the centred (integer / dead-slice) data")
+    if _risky(case, X):
+        st_ = _probe(lambda: CP_PLSR(case["ncomp"], **kw).fit(_L(X, case, 0), _L(Y, case, 1)))
+        if st_ == "hang":
+            discard("fit does not return on degenerate data (NaN handed to LAPACK lstsq); probed in a child process")
+
+
 def _plsr_fit(case, X, Y):
     kw = {} if case["iters"] is None else {"n_iter_max": case["iters"]}
     e = CP_PLSR(case["ncomp"], **kw)
-    if (case.get("xkind") == "int" or case.get("dead")) and case["ncomp"] > _support(X):
-        # integer data / data with dead slices are exhausted *exactly*: the next loading is 0/0 and the library hands NaN scores to
-        # LAPACK's lstsq, which raises LinAlgError or does not return at all (uninterruptible) -> not executed
-        discard("components not supported by the centred (integer / dead-slice) data")
+    _guard(case, X, Y, kw)
     try:
         e.fit(_L(X, case, 0), _L(Y, case, 1))
     except np.linalg.LinAlgError:
@@ -349,7 +409,8 @@ def _plsr_labels(case, extra=()):
     order = len(case["sides"]) + 1
     return {"nontrivial": case["ncomp"] >= 2 or order >= 3,
             "labels": [f"order={order}", f"ncomp={case['ncomp']}", f"p={case['p']}", f"iters={case['iters']}", f"xkind={case['xkind']}",
-                       f"lay_fit={case['lays'][0]}", f"lay_use={case['lays'][2]}", f"const_first_Y_col={bool(case.get('const0'))}", "dead=" + _dl(case.get("dead"))] + list(extra)}
+                       f"lay_fit={case['lays'][0]}", f"lay_use={case['lays'][2]}", f"const_first_Y_col={bool(case.get('const0'))}", "dead=" + _dl(case.get("dead")),
+                       f"scale={case.get('scale', 1.0):g}"] + list(extra)}
 
 
 def o_plsr_scores(case):
@@ -445,7 +506,7 @@ def o_plsr_int(case):
         discard("components not supported by the centred (integer) data")
     # 0/1 data with 4-15 samples often have tied spectra: the PLS recursion then terminates after fewer components than
     # the rank supports (X_res^T y_res = 0 exactly) -> one component only for bool
-    ci = dict(case, xkind="int", ncomp=1 if case["pdtype"] == "bool" else case["ncomp"])
+    ci = dict(case, xkind="int", exact=True, ncomp=1 if case["pdtype"] == "bool" else case["ncomp"])
     try:
         ef = _plsr_fit(ci, Xf, Yf)
     except np.linalg.LinAlgError:
@@ -477,8 +538,8 @@ def _cmp_fits(a, b, tag, sx, sy, sc):
 def o_plsr_shift(case):
     X, Y, Xnew = _plsr_data(case)
     sides = tuple(case["sides"])
-    C = np.array(case["shiftX"], dtype=float).reshape(sides) / 4.0
-    cy = np.array(case["shiftY"], dtype=float) / 4.0
+    C = np.array(case["shiftX"], dtype=float).reshape(sides) / 4.0 * float(case.get("scale", 1.0))
+    cy = np.array(case["shiftY"], dtype=float) / 4.0 * float(case.get("scale", 1.0))
     e1 = _plsr_fit(case, X, Y)
     a = _plsr_attrs(e1, case, X=X)
     Y2 = Y + (cy[0] if Y.ndim == 1 else cy)
@@ -658,7 +719,8 @@ def o_reg_history(est):
             # depends only on the latest fit: a fresh estimator with the same parameters agrees
             f = _new_reg(est, case)
             f.fit(_L(X, case, 0), _L(y, case, 1))     # same values, same memory layout: a deterministic repeat
-            close(got, f.predict(_L(Ai, case, 2)), f"{tag}/equals-fresh-estimator", rel=MREL, scale=max(contract_scale(A, W), 1e-300))
+            close(np.asarray(as_array(got, tag), dtype=float), np.asarray(as_array(f.predict(_L(Ai, case, 2)), tag), dtype=float),
+                  f"{tag}/equals-fresh-estimator", rel=MREL, scale=max(contract_scale(A, W), 1e-300))
         return {"nontrivial": _refit_used(case["ops"]),
                 "labels": [f"shapes={case['shapes']}", f"n_ops={len(case['ops'])}", f"refit_used={_refit_used(case['ops'])}",
                            f"pdtype={case.get('pdtype')}", f"lay_use={case['lays'][2]}",
@@ -707,6 +769,7 @@ def o_plsr_history(case):
         if op.startswith("fit:"):
             cur = op[4:]
             d, X, Y, Xnew = data[cur]
+            _guard(dict(d, lays=case["lays"]), X, Y, kw)
             e.fit(_L(X, case, 0), _L(Y, case, 1))
             last = None
             continue
